@@ -13,6 +13,11 @@ from . import AnalysisError
 from .db import own_nodes, unparse, dotted
 from .cg import live_nodes
 from .tyinf import FuncEnv
+import re as _re_mod
+
+
+def _re_words(s_):
+    return _re_mod.findall(r"[A-Za-z_][A-Za-z_0-9]*", s_)
 
 
 class RSite:
@@ -87,6 +92,43 @@ class FuncInfo:
         for tr, names in self.handlers_of(node):
             if any(n in anc for n in names):
                 return tr
+        return None
+
+    def _unorderable(self, t, depth):
+        """a reason why values of type t cannot be ordered with `<` -- only for instances of package classes (unknown types are
+        not judged)"""
+        db = self.esc.ctx.db
+        for a in t:
+            if a[0] == "inst":
+                c = db.classes.get(a[1])
+                if c is None:
+                    continue
+                if any(m in c.methods for m in ("__lt__", "__gt__", "__le__", "__ge__")):
+                    continue
+                ordered = False
+                for d in c.node.decorator_list:
+                    if isinstance(d, ast.Call) and (dotted(d.func) or "").split(".")[-1] == "dataclass":
+                        ordered = any(k.arg == "order" and isinstance(k.value, ast.Constant) and k.value.value is True for k in d.keywords)
+                if not ordered:
+                    return "instances of %s define no ordering" % c.name
+                if depth > 2:
+                    continue
+                for st in c.node.body:
+                    if isinstance(st, ast.AnnAssign) and isinstance(st.target, ast.Name):
+                        ann = unparse(st.annotation)
+                        for cn, c2 in db.classes.items():
+                            short = cn.split(".")[-1]
+                            if short in [w for w in _re_words(ann)] and c2 is not c:
+                                sub = self._unorderable(frozenset([("inst", cn)]), depth + 1)
+                                if sub:
+                                    return "%s is ordered field by field, and its field %s holds %s" % (c.name, st.target.id, sub)
+                        if "Optional" in ann or "None" in ann:
+                            return "%s is ordered field by field, and its field %s may be None" % (c.name, st.target.id)
+            elif a[0] in ("list", "tuple", "set", "deque") and depth < 3:
+                inner = a[1] if a[0] != "tuple" else frozenset(x for comp in a[1] for x in comp)
+                sub = self._unorderable(inner, depth + 1) if isinstance(inner, frozenset) else None
+                if sub:
+                    return sub
         return None
 
     def type_of(self, expr):
@@ -175,6 +217,36 @@ class FuncInfo:
                         self.sites.append(RSite(f, n, "IndexError", "pop"))
                 elif fn in ("heapq.heappop", "heappop"):
                     self.sites.append(RSite(f, n, "IndexError", "pop"))
+                elif (fn in ("sorted", "min", "max") and len(n.args) == 1 or (isinstance(n.func, ast.Attribute) and n.func.attr == "sort"
+                                                                              and s is not None and not s.callees)) \
+                        and not any(k.arg == "key" for k in n.keywords):
+                    # ordering instances of a package class: TypeError unless the class (and, for an ordered dataclass, every
+                    # field) is orderable
+                    from .tyinf import elem as _elem
+                    src = n.args[0] if fn in ("sorted", "min", "max") else n.func.value
+                    et = _elem(self.type_of(src))
+                    if not any(a[0] == "inst" for a in et):
+                        # the element classes of a container filled in callees: from the points-to contents of the iterated name
+                        base = src
+                        if isinstance(base, (ast.GeneratorExp, ast.ListComp)) and len(base.generators) == 1 \
+                                and isinstance(base.elt, ast.Name) and isinstance(base.generators[0].target, ast.Name) \
+                                and base.elt.id == base.generators[0].target.id:
+                            base = base.generators[0].iter
+                        if isinstance(base, ast.Name):
+                            pt = self.esc.ctx.pt
+                            extra = set()
+                            for i in pt.v(f.qual, base.id):
+                                if isinstance(i, tuple) and i[0] == "alloc" and i in pt.objs:
+                                    for j in pt.objs[i].contents:
+                                        o = pt.objs.get(j) if isinstance(j, tuple) else None
+                                        if o is not None and o.kind == "inst" and o.cls:
+                                            extra.add(("inst", o.cls))
+                            et = frozenset(et | extra)
+                    bad = self._unorderable(et, 0)
+                    if bad:
+                        self.sites.append(RSite(f, n, "TypeError", "sort"))
+                        self.sort_why = getattr(self, "sort_why", {})
+                        self.sort_why[id(n)] = bad
                 elif isinstance(n.func, ast.Attribute) and n.func.attr in ("index", "remove") and s is not None and not s.callees:
                     self.sites.append(RSite(f, n, "ValueError", "index"))
                 elif isinstance(n.func, ast.Attribute) and n.func.attr == "format" and s is not None and not s.callees:
